@@ -104,6 +104,15 @@ def expHttp (w : WireHttp) : Verdict :=
     | none => .retryable
   else .retryable
 
+/-- gRPC code carried by the error `export` RETURNS: `statusutil.NewStatusFromMsgAndHTTPCode(msg, resp.StatusCode).Err()`, wrapped
+(Permanent / ThrottleRetry) or not; 0 = nil -/
+def expHttpErrCode (w : WireHttp) : Nat :=
+  if OtlpTables.successLo ≤ w.status ∧ w.status ≤ OtlpTables.successHi then 0
+  else lookupD OtlpTables.grpcOfHttp OtlpTables.grpcOfHttpDefault w.status
+
+/-- gRPC code carried by the error `processError` returns: the status error itself, wrapped or not -/
+def expGrpcErrCode (w : WireGrpc) : Nat := w.code
+
 /-- `Export`: zero items are acknowledged without invoking the consumer. Returns (outcome, consumer calls). -/
 def receive (items : Nat) (sink : Outcome) : Outcome × Nat :=
   if items = 0 then (.ok, 0) else (sink, 1)
